@@ -196,7 +196,9 @@ pub fn expand(domain: Domain, regime: usize, base: f64, aux: f64, noise: &[f64])
                 x
             }
             5 => base * (1.0 + (i % saw_p) as f64 * 0.25),
-            6 => base * (1.0 + ((u * 8.0).floor() - 3.0) * 2f64.powi(-40)),
+            // nearly flat: eight levels k*d around the base, d = 2^-20 .. 2^-51 relative (chosen per stream): relative
+            // thresholds of any size hidden in a "constant window" test sit between two of these
+            6 => base * (1.0 + ((u * 8.0).floor() - 3.0) * 2f64.powi(-20 - (aux * 32.0) as i32)),
             7 => base * (1.0 + (u * 16.0).floor()) / 16.0,
             8 => {
                 let e = -6.0 + 18.0 * u;
